@@ -6,6 +6,8 @@ define the linear map from draws to samples, whose Gram matrix must be the joint
 (assembled in 50 digits from the raw backward kernels).
 """
 
+import math
+
 import numpy as np
 
 from pdv import configs, extract, poly, util
@@ -215,6 +217,12 @@ def run_case(case):
         if not np.all(np.isfinite(np.asarray(sol.u.mean_flat))) or float(np.max(np.abs(np.asarray(sol.u.mean_flat)))) > 1e4:
             return {"violations": [], "obs": {"cases": 1, "exploded_skipped": 1}, "sigs": []}
         post = sol.solution_full.posterior
+        # mechanism tag of finding D14 as seen through sampling: a backward kernel whose Taylor preconditioner belongs to a
+        # sub-interval far shorter than the others (1/T(dt) ~ k!/dt^(k+1/2): implied dt from the largest entry)
+        tl = np.abs(np.asarray(post.conditional.to_latent, float)).reshape(T - 1, -1)
+        dts = (math.factorial(nu) / np.maximum(np.max(tl, axis=1), 1e-300)) ** (1.0 / (nu + 0.5))
+        tags["tiny_interpolation_subinterval"] = bool(case["source"] == "fixedpoint" and float(np.min(dts)) < max(1e-4, 1e-2 * float(np.median(dts))))
+        obs["tiny_subinterval_cases"] = int(tags["tiny_interpolation_subinterval"])
         means, cov = extract.markov_joint_mp(post, d)
         sample_fn = lambda key=jax.random.PRNGKey(0), shape=(): post.sample(key, shape=shape)  # noqa: E731
         mean_ref = np.stack([extract.normal_dense(extract.tree_index(sol.u, i))[0] for i in range(T)])
@@ -266,9 +274,20 @@ def run_case(case):
         sa = _flat_sample(tape.run(sample_fn, a), d, n)
         sab = _flat_sample(tape.run(sample_fn, 2.0 * a - 0.5 * b), d, n)
         pred = s0.reshape(-1) + B @ (2.0 * a - 0.5 * b)
-        ea = float(np.max(np.abs(sab.reshape(-1) - pred) / (np.abs(pred) + np.tile(dd, 1) + 1e-300)))
+        # scale: the terms of the prediction, not the prediction (which may cancel to ~0 in a component)
+        coef = 2.0 * a - 0.5 * b
+        ea = float(np.max(np.abs(sab.reshape(-1) - pred) / (np.abs(s0.reshape(-1)) + np.abs(B) @ np.abs(coef) + np.tile(dd, 1) + 1e-300)))
         obs["max_affinity_dev"] = ea
-        if not ea <= 1e-7:  # B is itself a difference quotient of float64 samples (measured up to 3e-9 on 1500 cases)
+        tol_a = 1e-7
+        if ea > tol_a:
+            # measured conditioning of the draw-to-sample map at this point: the same draws moved by one unit roundoff
+            sgn = np.where(r.random(size=total) < 0.5, -1.0, 1.0)
+            sab_u = _flat_sample(tape.run(sample_fn, coef * (1.0 + sgn * 2.0**-52)), d, n)
+            sens = float(np.max(np.abs(sab_u.reshape(-1) - sab.reshape(-1)) / (np.abs(s0.reshape(-1)) + np.abs(B) @ np.abs(coef) + np.tile(dd, 1) + 1e-300)))
+            obs["conditioning_measured"] = 1
+            obs["max_measured_sensitivity"] = sens
+            tol_a = tol_a + util.COND_FACTOR * sens
+        if not ea <= tol_a:  # B is itself a difference quotient of float64 samples (measured up to 3e-9 on 1500 cases)
             viols.append(util.viol("affine_in_draws", f"sample is not affine in the draws ({ea:.3g})", tags=tags))
         del sa
     # (4) shapes with the real generator
